@@ -17,15 +17,15 @@ CHECKS = {
     'C06': dict(
         text='PARTIAL. Decided: a zero/NaN radius arc is exactly one LineTo to the mapped endpoint (bit exact, all inputs; found the unmapped endpoint defect); the relative '
              'form is the absolute form measured from the pen (relational); relative degenerate arcs in the exact-real reading; and, for non-degenerate arcs in the exact-real reading with '
-             'uninterpreted sin/cos/acos: at most four cubics, each control and end point equal to the one the SVG centre parameterisation (written from the SVG implementation notes) prescribes, '
+             'uninterpreted sin/cos/acos: at most four rasteriser calls, all cubics, for operands of any magnitude up to 2^100; and within the stated ranges each control and end point equal to the one the SVG centre parameterisation (written from the SVG implementation notes) prescribes, '
              'mapped under a non-uniform off-origin viewBox, last end point = mapped arc end point (given the F.6.5 end-angle theorem as a stated assumption).',
         note='Non-degenerate arcs: x-axis rotation 0 and 1/8 turn only, one viewBox map, exact reals (no rounding); the extent real trigonometry gives the sweep is not derivable with uninterpreted functions. '
              'Violated obligations of this reading usually come back unknown, so each case also runs 6 solver-drawn witnesses of the input assumptions through the native harness (oracle); '
-             'passing witnesses claim nothing. amd64 float->int semantics.',
+             'passing witnesses claim nothing; the degenerate-radius harness has the same fallback in the bit-exact reading (inputs pinned to random float classes) for the case that a change makes it run out of budget. amd64 float->int semantics.',
     ),
     'C07': dict(
         text='One-step inductive check that Encoder and Renderer selector read-backs agree modulo 64 after any styling call from any agreeing pair of states '
-             '(found the missing increment tracking), plus bounded pipelines (K symbolic styling calls + a path; selector writes + incrementing writes + Generator.SetGradient) '
+             '(found the missing increment tracking; the written colour is of any kind: flat, palette index, CREG reference, blend), plus bounded pipelines (K symbolic styling calls + a path; selector writes + incrementing writes + Generator.SetGradient) '
              'through Renderer directly and through Encoder->Decode->Renderer with identical rasteriser logs and paints; DestinationLogger forwards every method once.',
         note='Bounds: K styling calls (quick 2, thorough 4) with symbolic selectors/adj/incr/colours and short-form numbers; 0..2 incrementing writes before the gradient helper. '
              'fmt.Printf is a no-op stub. Trusted: executor, solvers.',
@@ -40,7 +40,8 @@ CHECKS = {
     'C04': dict(
         text='One-step symbolic execution of the real Renderer from an arbitrary register-machine state (64+64 symbolic registers, palette, selectors as arbitrary bytes, LOD) '
              'against a reference VM written from the specification: register writes, Reset, StartPath paint selection (flat / gradient / disabled, LOD test on the raster height), '
-             'gradient configuration read back through the GradientConfig accessors, and no rasteriser activity on a disabled path.',
+             'gradient configuration read back through the GradientConfig accessors, no rasteriser activity on a disabled path; and a relational two-path history (gradient path, one register write at any selector-relative target, second path) '
+             'against a Renderer that holds the same registers without the first path (stale paint caches).',
         note='Bounds: gradients with at most `stops` stops (quick 2, thorough 4); colour resolution is delegated to the C09 lemmas. Trusted: executor, solvers, reference VM.',
     ),
     'C05': dict(
@@ -80,7 +81,7 @@ CHECKS = {
     ),
     'C17': dict(
         text='Encoder.Reset from an arbitrary dirty state (any mode, error, pending run, selectors, LOD, flags, buffer contents) is field-equal to a fresh Encoder after the same Reset, '
-             'and K further arbitrary calls + Bytes give identical bytes/errors; Bytes is idempotent; Renderer.Reset from an arbitrary dirty state renders a well-formed program like a fresh Renderer.',
+             'and K further arbitrary calls + Bytes give identical bytes/errors; Bytes is idempotent; Renderer.Reset from an arbitrary dirty state (optionally reached after a real earlier use: SetLOD with arbitrary bounds, register writes, a gradient paint, an abandoned path) renders a well-formed program like a fresh Renderer.',
         note='Bounds: K = 1 (quick) / 2 (thorough) calls after Reset, Reset with every combination of default/custom viewBox and palette. Field equality after Reset is the inductive argument for longer programs. Determinism: the executor found no read of clock/random/map order on any path.',
     ),
     'C18': dict(
@@ -96,7 +97,7 @@ CHECKS = {
     ),
     'C20': dict(
         text='PARTIAL: per-verb transform dispatch of both front ends bit-exactly for every verb; Concat as matrix composition in exact reals; SetPathData / ParsePathData on path strings of '
-             'fixed skeletons (every verb letter, implicit repetition, zM join) whose digits are symbolic, with text->float parsing an uninterpreted function of the token bytes; ParsePath opacity/circle logic.',
+             'fixed skeletons (every verb letter, implicit repetition, zM join, compact ".5" right after a number with a dot) whose digits are symbolic, with text->float parsing an uninterpreted function of the token bytes; ParsePath opacity/circle logic.',
         note='Not decided: that decimal text denotes the float it is parsed to (strconv / fmt scanning are stubs), XML handling, skeletons beyond the enumerated ones. Bounds: symbolic digits per string (quick 2/4, thorough 4/12); a Generator that converted a path under another transform before (relational, arbitrary transforms).',
     ),
     'C02': dict(
@@ -133,7 +134,7 @@ CHECKS = {
     'C08': dict(
         text='Bit-exact (bit-vector + IEEE floating point) symbolic execution of the real number encoders/decoders over all 2^32 float32 '
              'inputs, all naturals below 2^30 and all 1/2/4-byte decoder patterns; the solver verdict covers every value, so the single '
-             'failing float32 of quantize was found as a model. Right level: the codecs are straight-line word-level code whose defects sit at single points.',
+             'failing float32 of quantize was found as a model; the 4-ulp tolerance also demands that finite values stay finite. Right level: the codecs are straight-line word-level code whose defects sit at single points.',
         note='Trusted: the executor (validated by the SELFTEST concrete differential and per-run native trace validation), the SMT solvers, '
              'amd64 float->int conversion semantics. Routing of public writer arguments to codecs is under C01.',
     ),
